@@ -144,6 +144,18 @@ def make (c):
         fd = [x for x in spec.get ('feeds') or [] if abs (x ['at'][2]) < 1e-12]
         if fd:
             loads.append (dict (k = 'z', z = [float (10 ** rng.uniform (0.5, 2.5)), float (rng.uniform (-50, 50))], at = fd [0]['at']))
+    # conductors given by their resistivity (the other documented form), and lossy wires that are insulated as well,
+    # handed to the classes of the library with the insulation first
+    rr = np.random.default_rng ([c ['seed'], 14, c ['i']])
+    for l in loads:
+        if l ['k'] == 'skin' and rr.random () < 0.4:
+            l ['res'] = 1.0 / l.pop ('cond')
+    if c ['i'] % 10 == 3 and all (g ['k'] == 'w' for g in spec ['geo']) and band == 'decide':
+        if not any (l ['k'] == 'skin' for l in loads):
+            loads = [l for l in loads if 'at' in l] + [dict (k = 'skin', cond = float (10 ** rr.uniform (2.5, 4.5)), tag = None)]
+        rmax  = max (g ['r'] for g in spec ['geo'])
+        loads = [dict (k = 'ins', radius = float (rmax * rr.uniform (1.5, 2.5)), eps = float (rr.uniform (2, 4)), tag = None)] + loads
+        spec ['route'] = 'api'
     spec ['loads'] = loads
     if band == 'decide':
         gen.taper_some (np.random.default_rng ([c ['seed'], 11, c ['i']]), spec, 0.2, min_radii = 8.5)
@@ -185,7 +197,7 @@ def integrate (m, step_t, step_p):
 
 def check (c):
     spec = c if 'geo' in c else make (c)
-    m    = gen.build (spec)
+    m    = gen.build (spec, route = 'api') if spec.get ('route') == 'api' else gen.build (spec)
     ok, why, facts = gen.validity (m, seg_max = 1 / 10., check_junction_ratio = None)
     if not ok:
         return dict (status = 'discard', reason = 'validity: ' + why [0])
